@@ -39,8 +39,18 @@ func (env *rEnv) typeOf(n *rNode) types.Type {
 			}
 		}
 	case "call":
-		if n.Text == "old" && len(n.Args) == 1 {
+		if (n.Text == "old" || n.Text == "athead") && len(n.Args) == 1 {
 			return env.typeOf(n.Args[0])
+		}
+		if n.Text == "delivered" {
+			return env.e.feedEventNamed()
+		}
+		if n.Text == "callarg" && len(n.Args) == 2 && n.Args[0].Op == "str" {
+			if idx, ok := constIndex(env.eval(n.Args[1])); ok {
+				if fn := env.e.findByShort(n.Args[0].Text); fn != nil && idx < len(fn.Params) {
+					return fn.Params[idx].Type()
+				}
+			}
 		}
 	}
 	return nil
@@ -114,6 +124,66 @@ func (env *rEnv) call(n *rNode) Value {
 		v := env.eval(n.Args[0])
 		env.useOld = saved
 		return v
+	case "athead":
+		if env.head == nil {
+			return env.fail("athead() outside a loop body clause")
+		}
+		saved := env.useHead
+		env.useHead = true
+		v := env.eval(n.Args[0])
+		env.useHead = saved
+		return v
+	case "pushes":
+		var items []Value
+		for _, ev := range env.post.trace {
+			if ev.Kind == "list.pushfront" {
+				items = append(items, sym(ev.Terms["ev"]))
+			}
+		}
+		return rList{items, "feedev"}
+	case "pushpos", "callpos":
+		// position in the ghost trace of the i-th push / of the first modular call to a function (-1 if none)
+		want := -1
+		kind := "list.pushfront"
+		if n.Text == "callpos" {
+			if n.Args[0].Op != "str" {
+				return env.fail("callpos needs a function name")
+			}
+			kind = "call:" + n.Args[0].Text
+			want = 0
+		} else if idx, ok := constIndex(env.eval(n.Args[0])); ok {
+			want = idx
+		}
+		seen := 0
+		for i, ev := range env.post.trace {
+			if ev.Kind == kind {
+				if seen == want {
+					return sym(IntLit(int64(i)))
+				}
+				seen++
+			}
+		}
+		return sym(IntLit(-1))
+	case "callarg":
+		// callarg("Short", i): i-th argument (receiver = 0) of the last modular call to that function
+		if n.Args[0].Op == "str" {
+			if idx, ok := constIndex(env.eval(n.Args[1])); ok {
+				for i := len(env.post.trace) - 1; i >= 0; i-- {
+					if env.post.trace[i].Kind == "call:"+n.Args[0].Text && idx < len(env.post.trace[i].Args) {
+						return env.post.trace[i].Args[idx]
+					}
+				}
+			}
+			return env.fail("no call to %s on this path", n.Args[0].Text)
+		}
+	case "delivered":
+		// the argument of the most recent client callback invocation on this path
+		for i := len(env.post.trace) - 1; i >= 0; i-- {
+			if env.post.trace[i].Kind == "callback" && len(env.post.trace[i].Args) > 0 {
+				return env.post.trace[i].Args[0]
+			}
+		}
+		return env.fail("no callback was invoked on this path")
 	case "doc":
 		return sym(Select(env.st().g.Docs, mkId(argT(0), argT(1)), SRow))
 	case "docAt":
